@@ -33,7 +33,9 @@ Check(r, idx) ==
         callSeq(g) == IF {c \in calls : c.g = g} = {} THEN 0 ELSE (CHOOSE c \in calls : c.g = g).seq
         \* a removal of key k became visible in (lo, hi): an atomic deletion event, or an explicit write call overlapping it
         touched(k, lo, hi) == \/ \E a \in aevs : a.k = k /\ a.seq > lo /\ a.seq < hi
-                              \/ \E w \in wcalls : w.seq < hi /\ (\A x \in wrets : x.g = w.g => x.seq > lo)
+                              \/ \E w \in wcalls : /\ w.seq < hi /\ (\A x \in wrets : x.g = w.g => x.seq > lo)
+                                                    \* a SetIfAbsent that found the key present wrote nothing
+                                                    /\ ~\E x \in wrets : x.g = w.g /\ x.op = "setifabsent-noop"
         \* C08 NoOverlap: two loader runs for one key overlap only if the key was written/invalidated/evicted in between
         overlaps == {<<a, b>> \in enters \X enters :
                         /\ a.k = b.k /\ a.run # b.run /\ a.seq < b.seq /\ b.seq < exitSeq(a)
